@@ -569,8 +569,9 @@ class Variogram(object):
         self.cof, self.cov = None, None
         self._diff = None
 
-        # set new values
-        self._values = np.asarray(_y)
+        # set new values (a copy: the instance must not depend on later
+        # changes to the caller's array)
+        self._values = np.array(_y)
 
         # recalculate the pairwise differences
         if calc_diff:
